@@ -100,3 +100,48 @@ theorem resumeRun_eq_oneShot (P : Parser σ) (hP : Resumable P) (o : Nat) (st : 
       · cases h
 
 end Sipsp
+
+namespace Sipsp
+
+variable {σ : Type}
+
+/-- one-step resumption law relative to an invariant of legitimately reachable (buffer, offset, object)
+    triples; the invariant is re-established at every suspension, on the extended buffer -/
+def ResumableI (P : Parser σ) (Inv : Buf → Nat → σ → Prop) : Prop :=
+  ∀ b s o st o' st', Inv b o st → P b o st = (o', Err.moreBytes, st') →
+    P (b ++ s) o' st' = P (b ++ s) o st ∧ Inv (b ++ s) o' st'
+
+/-- the invariant does not depend on bytes that are appended later -/
+def InvGrows (Inv : Buf → Nat → σ → Prop) : Prop := ∀ b s o st, Inv b o st → Inv (b ++ s) o st
+
+theorem oneShotRun_congr' (P : Parser σ) (o o' : Nat) (st st' : σ) (l : List Buf) (hl : l ≠ [])
+    (h : ∀ x ∈ l, P x o' st' = P x o st) : oneShotRun P o' st' l = oneShotRun P o st l := by
+  rcases oneShotRun_congr P o o' st st' l h with h | h
+  · exact h
+  · exact absurd h hl
+
+/-- **schedule theorem with invariant**: as `resumeRun_eq_oneShot`, for parsers whose resumption law
+    needs the object to be legitimately reachable (e.g. fields pointing inside the buffer). -/
+theorem resumeRun_eq_oneShotI (P : Parser σ) (Inv : Buf → Nat → σ → Prop) (hP : ResumableI P Inv)
+    (hG : InvGrows Inv) (o : Nat) (st : σ) (l : List Buf) (hg : Growing l)
+    (h0 : ∀ b ∈ l.head?, Inv b o st) : resumeRun P o st l = oneShotRun P o st l := by
+  induction l generalizing o st with
+  | nil => rfl
+  | cons b rest ih =>
+    cases rest with
+    | nil => rfl
+    | cons b' rest' =>
+      simp only [resumeRun, oneShotRun]
+      have hI : Inv b o st := h0 b (by simp)
+      rcases hp : P b o st with ⟨o1, e1, s1⟩
+      cases e1 <;> simp only
+      have hext := growing_ext hg
+      obtain ⟨s', hs'⟩ := hext b' List.mem_cons_self
+      have hI' : Inv b' o1 s1 := by rw [hs']; exact (hP b s' o st o1 s1 hI hp).2
+      rw [ih o1 s1 (growing_tail hg) (by intro x hx; simp at hx; subst hx; exact hI')]
+      apply oneShotRun_congr' P o o1 st s1 (b' :: rest') (by simp)
+      intro x hx
+      obtain ⟨s, rfl⟩ := hext x hx
+      exact (hP b s o st o1 s1 hI hp).1
+
+end Sipsp
